@@ -31,6 +31,14 @@ def cells(tier):
                 acts = ra + [[GAC, A("Z", 1), M("Y", 1, 1)]] + ([[UNTIL]] if un else [])
                 sc = scen(pool(size), acts, outcomes=["ret"], ecb="plain", ccb="plain")
                 out.append(cell(f"s{size} {rn} gac+after{' until' if un else ''}", sc, MON))
+    # cancellations with the optional msg argument (also of tasks that have not had their first step) before the close
+    for size in [1, 2]:
+        sc = scen(pool(size), [[A("A", 2)], [["cancel", rid("A", 1), {"msg": "why"}]], [GAC], [UNTIL]], outcomes=["ret"], ecb="plain", ccb="plain")
+        out.append(cell(f"s{size} A2 cancelA1(msg) gac until", sc, MON))
+        sc = scen(pool(size), [[M("M", 3, 2)], [["cancel_group", "M", {"msg": "stop"}]], [GAC]], outcomes=["ret"], ecb="plain", ccb="plain")
+        out.append(cell(f"s{size} M3/2 cgroupM(msg) gac", sc, MON))
+        sc = scen(pool(size), [[A("A", 2)], [["cancel_all", {"msg": "all"}]], [GAC]], outcomes=["ret"], ecb="plain", ccb="plain")
+        out.append(cell(f"s{size} A2 call(msg) gac", sc, MON))
     # a flush() still in flight (blocked on a task in its slow end callback) when gather_and_close() is called
     sc = scen(pool(2), [[A("A", 2)], [FLUSH], [GAC], [UNTIL]], outcomes=["ret"], ecb="slow", ccb="plain", slow_ids=[0, 1])
     out.append(cell("s2 A2 flush(in flight) gac until slowecb[0,1]", sc, MON))
